@@ -198,3 +198,58 @@ def nested_short(max_depth):
                          struct.pack('>I', len(c)) + c)
                     c = b'\x00A' + struct.pack('>I', len(t)) + t
             yield 'nested-short %s depth %d' % (mix, depth), c
+
+
+def sibling_lies(n):
+    """Grammar-directed fault with a RELATION between two length fields: a
+    parent container holds n small sibling containers; inside each sibling one
+    length field (of a string, a byte array, a nested table or a nested array)
+    claims the bytes up to the end of the PARENT (or of all the data, or 2^31)
+    instead of the two bytes it really has.  A decoder that honours the inner
+    length against the whole remaining buffer, while the sibling's own length
+    decides where the parent resumes, hands out n overlapping tails: output
+    and memory quadratic in the input, with no container parsed twice.
+    Yields (label, table body) - the body of the outermost table."""
+    tail = b'\x04tailS\x00\x00\x00\x08' + b't' * 8
+    for parent in 'FA':
+        for child in 'FA':
+            for elem in 'SxFA':
+                for lie in ('parent-end', 'data-end', '2^31', 'next-sibling'):
+                    # layout pass: children with a 4-byte placeholder
+                    kids, lie_at = [], []
+                    pos = 0
+                    for i in range(n):
+                        inner = elem.encode() + b'\x00\x00\x00\x00' + b'ab'
+                        if child == 'F':
+                            body = b'\x01s' + inner
+                            lie_in_body = 3
+                        else:
+                            body = inner
+                            lie_in_body = 1
+                        kid = child.encode() + struct.pack('>I', len(body)) + \
+                            body
+                        if parent == 'F':
+                            kid = bytes([5]) + b'%05d' % i + kid
+                            head = 6
+                        else:
+                            head = 0
+                        lie_at.append(pos + head + 5 + lie_in_body)
+                        kids.append(kid)
+                        pos += len(kid)
+                    pbody = bytearray(b''.join(kids))
+                    total = len(pbody)
+                    for i, at in enumerate(lie_at):
+                        after = at + 4
+                        if lie == 'parent-end':
+                            v = total - after
+                        elif lie == 'data-end':
+                            v = total - after + len(tail)
+                        elif lie == '2^31':
+                            v = 2 ** 31
+                        else:
+                            v = (lie_at[i + 1] - after) if i + 1 < n else 2
+                        pbody[at:at + 4] = struct.pack('>I', v)
+                    out = b'\x01p' + parent.encode() + \
+                        struct.pack('>I', total) + bytes(pbody) + tail
+                    yield ('sibling-lies n=%d parent=%s child=%s elem=%s '
+                           'lie=%s' % (n, parent, child, elem, lie)), out
